@@ -57,6 +57,8 @@ impl<T> Drop for SendFuture<'_, T> {
                 && !acquire_internal(self.internal).cancel_send_signal(&self.sig)
             {
                 // a receiver got signal ownership, should wait until the response
+                #[cfg(kanal_verif)]
+                crate::verif::rt::probe(crate::verif::rt::probe::CANCEL_SEND_LOST);
                 if self.sig.async_blocking_wait() {
                     // no need to drop data is moved to receiver
                     return;
@@ -205,6 +207,8 @@ impl<T> Future for SendFuture<'_, T> {
                             // it's not possible safely to update waker after the signal is shared,
                             // but we know data will be ready shortly,
                             //   we can wait synchronously and receive it.
+                            #[cfg(kanal_verif)]
+                            crate::verif::rt::probe(crate::verif::rt::probe::POLL_SYNC_FALLBACK);
                             this.state = FutureState::Done;
                             if this.sig.async_blocking_wait() {
                                 Poll::Ready(Ok(()))
@@ -249,6 +253,8 @@ impl<T> Drop for ReceiveFuture<'_, T> {
             // try to cancel recv signal
             if !acquire_internal(self.internal).cancel_recv_signal(&self.sig) {
                 // a sender got signal ownership, receiver should wait until the response
+                #[cfg(kanal_verif)]
+                crate::verif::rt::probe(crate::verif::rt::probe::CANCEL_RECV_LOST);
                 if self.sig.async_blocking_wait() {
                     // got ownership of data that is not going to be used ever again, so drop it
                     if needs_drop::<T>() {
@@ -365,6 +371,8 @@ impl<T> Future for ReceiveFuture<'_, T> {
                             if acquire_internal(this.internal).recv_signal_exists(&this.sig) {
                                 // signal is not shared with other thread yet so it's safe
                                 // to update waker locally
+                                #[cfg(kanal_verif)]
+                                crate::verif::rt::probe(crate::verif::rt::probe::WAKER_REFRESH);
                                 this.sig.register_waker(cx.waker());
                                 Poll::Pending
                             } else {
@@ -373,6 +381,8 @@ impl<T> Future for ReceiveFuture<'_, T> {
                                 // note: it's not possible safely to update waker after the signal
                                 // is shared, but we know data will be ready shortly,
                                 //   we can wait synchronously and receive it.
+                                #[cfg(kanal_verif)]
+                                crate::verif::rt::probe(crate::verif::rt::probe::POLL_SYNC_FALLBACK);
                                 this.state = FutureState::Done;
                                 if this.sig.async_blocking_wait() {
                                     Poll::Ready(Ok(unsafe { this.read_local_data() }))
@@ -387,6 +397,8 @@ impl<T> Future for ReceiveFuture<'_, T> {
                 },
                 _ => {
                     if this.is_stream {
+                        #[cfg(kanal_verif)]
+                        crate::verif::rt::probe(crate::verif::rt::probe::STREAM_REARM);
                         this.state = FutureState::Zero;
                         continue;
                     }
